@@ -11,6 +11,7 @@ import (
 	"strings"
 	"testing"
 	"testing/synctest"
+	"time"
 
 	sse "github.com/tmaxmax/go-sse"
 
@@ -25,6 +26,9 @@ type c16Op struct {
 	Ops  []string `json:"message_ops,omitempty"`
 	Enc  string   `json:"-"`
 	msg  *sse.Message
+	// live/mutate: the Send is given this object after the mutate-th field change was applied to it again
+	live   *sse.Message
+	mutate int
 }
 
 var errInjectedRW = errors.New("injected response writer failure")
@@ -95,7 +99,13 @@ func c16RunSession(shape string, script []c16Op, failAt, accept int, preCT strin
 	for _, op := range script {
 		var e error
 		if op.Kind == "send" {
-			e = sess.Send(op.msg)
+			m := op.msg
+			if op.live != nil {
+				// re-apply the field change on the live object (the script is executed many times)
+				m = op.live
+				m.ID, m.Type, m.Retry = op.msg.ID, op.msg.Type, op.msg.Retry
+			}
+			e = sess.Send(m)
 		} else {
 			e = sess.Flush()
 		}
@@ -274,6 +284,34 @@ func TestC16(t *testing.T) {
 				}
 				script = append(script, c16Op{Kind: "send", Ops: b.Ops, Enc: b.Msg.String(), msg: b.Msg})
 			}
+		}
+		// the handler sends one Message value several times, changing a field in between
+		// (a counter as ID, another type): each Send writes what the message is at that moment
+		if rng.IntN(3) == 0 {
+			var script2 []c16Op
+			var reused *sse.Message
+			n := 0
+			for _, op := range script {
+				if op.Kind != "send" {
+					script2 = append(script2, op)
+					continue
+				}
+				if reused == nil {
+					reused = op.msg
+				}
+				n++
+				// the script holds a snapshot (a clone) for the encoding; the session is given the live object
+				switch n % 3 {
+				case 0:
+					reused.ID = sse.ID("seq-" + fmt.Sprint(n))
+				case 1:
+					reused.Type = sse.Type("kind-" + fmt.Sprint(n))
+				default:
+					reused.Retry = time.Duration(n) * time.Second
+				}
+				script2 = append(script2, c16Op{Kind: "send", Ops: append(append([]string{}, op.Ops...), "(same Message value as before, field changed)"), Enc: reused.String(), msg: reused.Clone(), live: reused, mutate: n})
+			}
+			script = script2
 		}
 		shape := flushShapes[rng.IntN(len(flushShapes))]
 		r.Begin(key, fmt.Sprintf("shape=%s script=%+v", shape, script))
@@ -539,6 +577,22 @@ func TestC16(t *testing.T) {
 		key := fw.Key("D", 0)
 		r.Begin(key, "publish topics")
 		prov := &recProvider{}
+		// a request that arrives after Shutdown and that OnSession rejects: the rejection is all the client gets
+		func() {
+			srv := &sse.Server{}
+			srv.OnSession = func(w http.ResponseWriter, _ *http.Request) ([]string, bool) {
+				w.WriteHeader(http.StatusUnauthorized)
+				w.Write([]byte("no"))
+				return nil, false
+			}
+			srv.Shutdown(context.Background())
+			core := mon.NewCoreRW()
+			w, _ := mon.MakeRW("both", core)
+			srv.ServeHTTP(w, httptest.NewRequest(http.MethodGet, "http://verif.invalid/", http.NoBody))
+			if core.Code != http.StatusUnauthorized || core.Body.String() != "no" {
+				r.Violation(key, []string{"writes_on_rejected_request", "after_shutdown"}, map[string]any{"status": core.Code, "body": fw.Q(core.Body.String())}, "C16: after Shutdown, a request rejected by OnSession got status %d and body %q (want OnSession's own 401 / \"no\")", core.Code, core.Body.String())
+			}
+		}()
 		// Shutdown may be the first thing ever called on a Server (with and without a Provider)
 		func() {
 			defer func() {
